@@ -45,6 +45,7 @@ def classify_intervals(
         """
     SELECT DISTINCT data_interval
     FROM grid_time
+    JOIN water_level USING (epoch)
     WHERE data_interval IS NOT NULL
     ORDER BY data_interval"""
     )
@@ -517,7 +518,7 @@ def check_for_uniform_time_steps(epoch):
 
     """
     delta_t = np.diff(epoch)
-    if delta_t.min() != delta_t.max():
+    if len(delta_t) and delta_t.min() != delta_t.max():
         raise ValueError("Nonuniform time steps in {}".format(sorted(set(delta_t))))
 
 
